@@ -54,6 +54,7 @@ const (
 	c08Old = "192.0.2.66"  // old child servers (gen 1)
 	c08New = "192.0.2.77"  // new child servers (gen 2)
 	c08Sub = "192.0.2.88"  // servers of sub.ghost (delegated by the old child)
+	c08Deep = "192.0.2.89" // servers of deep.sub.ghost (delegated by sub.ghost): two levels below the ghost cut
 	c08TLD = "198.51.100.5"
 	c08Dead = "192.0.2.99" // the old child's second server: its name is glueless and cannot be resolved
 	c08ZZZ  = "192.0.2.98" // server of zzz.: never answers
@@ -109,7 +110,7 @@ func genC08(r *kit.RNG) *C08Scenario {
 	if r.Chance(0.3) {
 		sc.ChangeAtS = r.Range(2, lease+10)
 	}
-	names := []string{"www.ghost.tld.", "ghost.tld.", "nx.ghost.tld.", "www.sub.ghost.tld.", "other.ghost.tld.", "ghost.tld."}
+	names := []string{"www.ghost.tld.", "ghost.tld.", "nx.ghost.tld.", "www.sub.ghost.tld.", "other.ghost.tld.", "ghost.tld.", "www.deep.sub.ghost.tld.", "other.deep.sub.ghost.tld."}
 	types := map[string]uint16{"ghost.tld.": dns.TypeNS}
 	// question times: before the change, between change and lease end, around the end, after
 	var times []int
@@ -178,6 +179,14 @@ func c08Spec(sc *C08Scenario) *world.Spec {
 				fmt.Sprintf("www.sub.ghost.tld. %d IN A 10.1.3.1", sc.OldTTL),
 				fmt.Sprintf("www.sub.ghost.tld. %d IN TXT \"gen1\"", sc.OldTTL),
 			}},
+		// two levels below the ghost cut: inherits the ghost lease through sub.ghost
+		{Name: "deep.sub.ghost.tld.", Signed: sc.Signed, Alg: alg, KeyIdx: 5, Secure: true, NSNames: []string{"ns1.deep.sub.ghost.tld."}, Addrs: []string{c08Deep}, NSTTL: sc.SubNSTTL, DSTTL: sc.SubNSTTL,
+			Records: []string{
+				fmt.Sprintf("ns1.deep.sub.ghost.tld. %d IN A %s", sc.OldTTL, c08Deep),
+				fmt.Sprintf("www.deep.sub.ghost.tld. %d IN A 10.1.4.1", sc.OldTTL),
+				fmt.Sprintf("other.deep.sub.ghost.tld. %d IN A 10.1.4.2", sc.OldTTL),
+				fmt.Sprintf("www.deep.sub.ghost.tld. %d IN TXT \"gen1\"", sc.OldTTL),
+			}},
 	}
 	if sc.DeadNS {
 		sp.Zones[2].NSNames = append(sp.Zones[2].NSNames, "ns.dead.zzz.")
@@ -195,7 +204,7 @@ func c08Spec(sc *C08Scenario) *world.Spec {
 
 func isGen1(rr dns.RR) bool {
 	s := rr.String()
-	return strings.Contains(s, "10.1.1.") || strings.Contains(s, "10.1.3.") || strings.Contains(s, "gen1") || strings.Contains(s, c08Old) || strings.Contains(s, c08Sub)
+	return strings.Contains(s, "10.1.1.") || strings.Contains(s, "10.1.3.") || strings.Contains(s, "10.1.4.") || strings.Contains(s, "gen1") || strings.Contains(s, c08Old) || strings.Contains(s, c08Sub) || strings.Contains(s, c08Deep)
 }
 
 func runC08(sc *C08Scenario, tr *kit.Trace) *kit.Result {
@@ -299,6 +308,7 @@ func execC08(sc *C08Scenario, tr *kit.Trace, res *kit.Result) {
 		tld.Undelegate("ghost.tld.")
 		delete(w.World.Zones, "ghost.tld.")
 		delete(w.World.Zones, "sub.ghost.tld.")
+		delete(w.World.Zones, "deep.sub.ghost.tld.")
 		if sc.Mode == "repoint" {
 			newGhost = w.World.AddZone("ghost.tld.", []authsim.NSHost{{Name: "ns2.ghost.tld.", Addrs: []netip.Addr{netip.MustParseAddr(c08New)}}})
 			newGhost.NSTTL = 300
@@ -349,7 +359,7 @@ func execC08(sc *C08Scenario, tr *kit.Trace, res *kit.Result) {
 		log := w.Net.Canonical()
 		toOld := 0
 		for _, s := range log[sentBefore:] {
-			if s.To.Addr().String() == c08Old || s.To.Addr().String() == c08Sub || s.To.Addr().String() == c08Dead {
+			if s.To.Addr().String() == c08Old || s.To.Addr().String() == c08Sub || s.To.Addr().String() == c08Deep || s.To.Addr().String() == c08Dead {
 				toOld++
 			}
 		}
